@@ -48,6 +48,14 @@ func c14InternalLines(emit func(string), rng *verifRng, thorough bool, replay st
 			}
 		}
 	}
+	// a busy node: the clock-less tuple is numbered, thousands of other tuples are numbered, the clock-less tuple is
+	// numbered again - its counter must have survived whatever bounds the table
+	for _, n := range []int{100, 5000} {
+		if replay != "" && replay != "idkbig" {
+			break
+		}
+		emit(c14IdkBig(n))
+	}
 	rounds := 40
 	if thorough {
 		rounds = 400
@@ -200,6 +208,35 @@ func c14IdkDirected(auto bool, age int64, idle int64) string {
 		a = 1
 	}
 	return fmt.Sprintf("idk %d %s %s", a, strings.Join(ops, ","), strings.Join(outs, ","))
+}
+
+// c14IdkBig: update of the epoch tuple, n updates of n different recent tuples, update of the epoch tuple.
+func c14IdkBig(n int) string {
+	idk := NewIdKeeper()
+	num := func(src string, ts uint64) (uint64, bool) {
+		b, err := c14Bundle(src, c14Dest, map[bool]string{true: "epoch", false: "now"}[ts == 0], time.Now(), 0, "x")
+		if err != nil {
+			return 0, false
+		}
+		b.PrimaryBlock.CreationTimestamp[0] = ts
+		idk.update(&b)
+		return b.PrimaryBlock.CreationTimestamp.SequenceNumber(), true
+	}
+	a, ok := num(c14Node, 0)
+	if !ok {
+		return "idkbig error build"
+	}
+	base := uint64(bpv7.DtnTimeNow())
+	for i := 0; i < n; i++ {
+		if _, ok := num(c14App, base-uint64(i)); !ok {
+			return "idkbig error build"
+		}
+	}
+	b, ok := num(c14Node, 0)
+	if !ok {
+		return "idkbig error build"
+	}
+	return fmt.Sprintf("idkbig %d %d %d", n, a, b)
 }
 
 // c14IdkConc: k goroutines update one key of a bare IdKeeper at once.
